@@ -107,6 +107,23 @@ class C04(Oracle):
         op, pre = ctx.op, ctx.pre
         if k in ('slice', 'clip'):
             exp = models.m_slice(pre, op.get('a'), op.get('b'))
+            n = len(pre.text)
+            w = ctx.world
+            if any(pre.cells):
+                i0, i1 = norm_range(n, op.get('a'), op.get('b'))
+                cps = set(pre.change_points())
+                if i1 <= i0:
+                    w.count('probe:empty_slice_of_formatted')
+                if i0 in cps or i1 in cps:
+                    w.count('probe:bound_on_change_point')
+                if (i0 - 1 in cps or i0 + 1 in cps or i1 - 1 in cps or i1 + 1 in cps):
+                    w.count('probe:bound_next_to_change_point')
+                if any(isinstance(x, int) and x < 0 for x in (op.get('a'), op.get('b'))):
+                    w.count('probe:negative_bound')
+                if any(isinstance(x, int) and x > n for x in (op.get('a'), op.get('b'))):
+                    w.count('probe:bound_beyond_length')
+                if any(len(set(c)) < len(c) for c in pre.cells[i0:i1]):
+                    w.count('probe:equal_settings_overlap_in_range')
             _expect(ctx.post, exp, k)
             _probe_closure(ctx.result, k)
             if k == 'clip':
@@ -172,8 +189,29 @@ class C05(Oracle):
             oo = _operand_obs(ctx)
             if k == 'join':
                 exp = models.m_concat(oo) if oo else models.Exp('', ())
+                seq = oo
             else:
                 exp = models.m_concat([ctx.pre] + oo)
+                seq = [ctx.pre] + oo
+            w = ctx.world
+            for x, y in zip(seq, seq[1:]):
+                lc = x.cells[-1] if x.cells else ()
+                rc = y.cells[0] if y.cells else ()
+                if lc and rc:
+                    if lc == rc:
+                        w.count('probe:seam_equal_settings')
+                    elif lc[:len(rc)] == rc or rc[:len(lc)] == lc:
+                        w.count('probe:seam_prefix_equal')
+                    elif set(lc) & set(rc):
+                        w.count('probe:seam_partly_equal')
+                    else:
+                        w.count('probe:seam_different')
+                elif lc or rc:
+                    w.count('probe:seam_one_side_plain')
+                if not x.text or not y.text:
+                    w.count('probe:empty_operand')
+            if k != 'join' and any('slot' in d and d['slot'] % len(w.vals) == ctx.recv_slot for d in engine_operand_descs(ctx.op)):
+                w.count('probe:self_operand')
             _expect(ctx.post, exp, k)
             if k == 'join' and len(ctx.op['xs']) >= 2:
                 # the operand objects as resolved before the call (the result may since have been
@@ -273,6 +311,15 @@ class C06(Oracle):
         for c in new:
             gnew |= groups(c)
         begun = False
+        w = ctx.world
+        conflict = any(groups(c) & gnew for i in range(a, b) for c in pre.cells[i])
+        w.count('probe:%s_%s' % ('topmost' if op['top'] else 'not_topmost', 'with_conflict' if conflict else 'no_conflict'))
+        if isinstance(op['b'], int) and op['b'] > n:
+            w.count('probe:end_beyond_length')
+        if any(isinstance(x, int) and x < 0 for x in (op['a'], op['b'])):
+            w.count('probe:negative_bound')
+        if len(set(pre.cells[a:b])) > 1:
+            w.count('probe:change_point_inside_range')
         for i in range(n):
             if i < a or i >= b:
                 require(sim(post.cells[i], pre.cells[i]), 'apply.outside', index=i, range=[a, b],
@@ -352,6 +399,24 @@ class C07(Oracle):
         n = len(pre.text)
         a, b = norm_range(n, op['a'], op['b'])
         exp = models.m_remove(pre, sel, op['a'], op['b'])
+        w = ctx.world
+        if b > a:
+            inside = [c for cell in pre.cells[a:b] for c in cell]
+            if sel is None:
+                w.count('probe:selection_none')
+            elif not any(c in sel for c in inside):
+                w.count('probe:selection_absent')
+            else:
+                w.count('probe:selection_present')
+                if any(cnt > 1 and c in sel for cell in pre.cells[a:b] for c, cnt in Counter(cell).items()):
+                    w.count('probe:selection_hits_equal_instances')
+                for cell in pre.cells[a:b]:
+                    hit = [i for i, c in enumerate(cell) if c in sel]
+                    if hit and any(groups(cell[j]) & groups(cell[hit[0]]) for j in range(hit[0] + 1, len(cell))):
+                        w.count('probe:selection_hidden_below_conflicting')
+                        break
+            if b < n and len([c for c in pre.cells[b - 1] if c in pre.cells[b]]) >= 2:
+                w.count('probe:two_or_more_span_range_end')
         require(post.text == pre.text, 'remove.text', want=pre.text, got=post.text)
         for i in range(n):
             inside = a <= i < b
@@ -455,6 +520,14 @@ class C12(Oracle):
             ext = True if (pre.kind == A or op['how'] == 'zfill') else op['ext']
             fill = '0' if op['how'] == 'zfill' else op['fill']
             exp, left, right = models.m_pad(pre, op['how'], op['w'], fill, ext)
+            w = ctx.world
+            if left or right:
+                fmtd = 'formatted' if any(pre.cells) else 'plain'
+                w.count('probe:pad_%s_%s_%s' % ('left' if left else 'right_only', 'extend' if ext else 'no_extend', fmtd))
+                if left != right and left and right:
+                    w.count('probe:center_odd_padding')
+                if fill in ':+-0123456789<>^':
+                    w.count('probe:fill_is_grammar_character')
             _expect(ctx.post, exp, 'pad', how=op['how'], width=op['w'], extend=ext)
             _probe_closure(ctx.result, 'pad')
             return
@@ -520,13 +593,36 @@ def atoms_part_nonempty(sp):
 # =============================================================================== C16
 class C16(Oracle):
     prop = 'C16'
-    own_kinds = frozenset({'fmatch'})
+    own_kinds = frozenset({'fmatch', 'applymatch'})
 
     def before(self, ctx):
-        if ctx.kind == 'fmatch':
+        if ctx.kind in ('fmatch', 'applymatch'):
             ctx.fmatch_twin = AnsiString(ctx.recv)
 
+    def step_applymatch(self, ctx):
+        _own_preamble(ctx, 'applymatch')
+        op, pre = ctx.op, ctx.pre
+        ms = list(itertools.islice(re.finditer(op['pat'], pre.text), op['nth'], op['nth'] + 1))
+        if not ms:
+            require(ctx.result is None, 'applymatch.no_match')
+            return
+        m = ms[0]
+        ref = ctx.fmatch_twin
+        a, b = m.start(op.get('group', 0)), m.end(op.get('group', 0))
+        if a >= 0:
+            ref.apply_formatting(ops.settings_arg(op), a, b)
+        else:
+            ctx.world.count('skipped:applymatch_group_did_not_participate')
+            return
+        ro, post = observe(ref), ctx.post
+        require(post is not None and post.text == pre.text, 'applymatch.text')
+        require(ro.cells == post.cells and ro.render == post.render, 'applymatch.equals_apply_formatting',
+                span=[a, b], explicit=ro.to_json(), method=post.to_json())
+        ctx.n_matches = 1 if b > a else 0
+
     def step(self, ctx):
+        if ctx.kind == 'applymatch':
+            return self.step_applymatch(ctx)
         if ctx.kind != 'fmatch':
             return
         _own_preamble(ctx, 'fmatch')
@@ -559,7 +655,7 @@ class C16(Oracle):
         ctx.n_matches = len([m for m in ms if m.end() > m.start()])
 
     def nontrivial(self, ctx):
-        return ctx.kind == 'fmatch' and getattr(ctx, 'n_matches', 0) >= 1 and any(ctx.pre.cells)
+        return ctx.kind in ('fmatch', 'applymatch') and getattr(ctx, 'n_matches', 0) >= 1 and any(ctx.pre.cells)
 
 
 # =============================================================================== C17
